@@ -9,12 +9,20 @@ for name in sys.argv[1:]:
     d = "/verif/seeded/" + name
     prop = name.split("-")[0]
     meta = json.load(open(d + "/meta.json"))
-    rc, o = sh("git -C /repo apply %s/patch.diff" % d)
+    target = "/repo"
+    if os.environ.get("SEED_SCRATCH"):
+        target = "/tmp/mut/recheck-wt"
+        sh("git -C /repo worktree remove --force %s" % target)
+        rc, o = sh("git -C /repo worktree add --detach %s main" % target)
+        assert rc == 0, o
+    rc, o = sh("git -C %s apply %s/patch.diff" % (target, d))
     assert rc == 0, o
     try:
-        rc_chk, out = sh("./check %s --tier quick" % prop, "/verif")
+        rc_chk, out = sh("VERIF_REPO=%s ./check %s --tier quick" % (target, prop), "/verif")
     finally:
-        sh("git -C /repo checkout -- . && git -C /repo clean -fdq")
+        sh("git -C %s checkout -- . && git -C %s clean -fdq" % (target, target))
+        if target != "/repo":
+            sh("git -C /repo worktree remove --force %s" % target)
     viol = [l for l in out.split("\n") if l.startswith("VIOLATION")]
     detail = []
     for v in viol:
